@@ -64,6 +64,11 @@ func (x *Exec) intercept(fn *ssa.Function, args []Value, site ssa.Instruction) (
 		panic(x.errf("native function %s is not registered (build the engine with the harness overlay)", name))
 	}
 	key := fnKey(fn)
+	if hn, ok := x.eng.Natives["@host"][key]; ok {
+		if r, ok := x.callNative(reflect.ValueOf(hn), args, fn.Signature, key); ok {
+			return r, true
+		}
+	}
 	if x.fe != nil && fn.Pkg != nil && fn.Signature.Recv() == nil && fn.Pkg.Pkg.Path() == x.eng.ModulePath+"/ring" {
 		if r, ok := x.feKernel(name, args); ok {
 			return r, true
